@@ -22,7 +22,7 @@ ASSUMPTIONS = [
 ]
 MONITORS = "TransferResult vs os.walk listings of the destination before/after, per-oid upload log, source byte snapshot and audit-hook mutation log on the source"
 REQUIRED_COUNTERS = [
-    "rounds_with_index", "rounds_dest_with_state", "rounds", "rounds_with_failures", "rounds_with_preexisting", "rounds_missing_both_sides", "rounds_verify_corrupt_source",
+    "corrupt_parseable_dir_objects", "rounds_with_index", "rounds_dest_with_state", "rounds", "rounds_with_failures", "rounds_with_preexisting", "rounds_missing_both_sides", "rounds_verify_corrupt_source",
     "transferred_objects_checked", "source_snapshots_compared", "rounds_expanded", "rounds_local_dest", "rounds_remote_dest",
 ]
 
@@ -142,6 +142,17 @@ def run_shard(ctx):
                         with open(p, "ab") as f:
                             f.write(b"#corrupt")
                         corrupt.add(o)
+            if variant == "verify-corrupt" and rng.random() < 0.5:
+                # a directory object whose bytes no longer hash to its name but still parse (re-serialised by some tool)
+                import json as _j
+
+                t = rng.choice(sc.trees)
+                p = sc.src_path(t["oid"])
+                os.chmod(p, 0o644)
+                with open(p, "wb") as f:
+                    f.write(_j.dumps([{"md5": d_, "relpath": r_} for r_, d_ in sorted(t["listing"].items())], indent=1).encode())
+                corrupt.add(t["oid"])
+                res.count("corrupt_parseable_dir_objects")
             # arbitrary initial destination contents
             pre = {o for o in denoted if o not in missing_both and o not in corrupt and rng.random() < 0.3}
             for o in pre:
